@@ -32,6 +32,7 @@ type compiler struct {
 	ctx     hctx.Context
 	program *ast.Program
 	curStmt ast.Statement
+	fnDepth int // > 0 while the body of a template function is being evaluated
 	inCheck bool
 }
 
@@ -193,7 +194,9 @@ func (c *compiler) evalUserFunction(node *userFunction, args []ast.Expression) (
 		c.ctx.Set(p.Value, vals[i])
 	}
 
+	c.fnDepth++
 	res, err := c.evalBlockStatement(node.Block)
+	c.fnDepth--
 	if err != nil {
 		return nil, err
 	}
@@ -942,6 +945,23 @@ func (c *compiler) evalCallExpression(node *ast.CallExpression) (interface{}, er
 	return nil, nil
 }
 
+// loopReturn is the value of a for loop that a return statement ended: inside the body of a template
+// function a return ends the function, so the loop stops and hands the return object up (together with
+// what earlier iterations produced, if anything).
+func loopReturn(ret []interface{}, ro returnObject) returnObject {
+	var produced []interface{}
+	for _, r := range ret {
+		if s, ok := r.([]interface{}); ok && len(s) == 0 {
+			continue // an iteration that rendered nothing
+		}
+		produced = append(produced, r)
+	}
+	if len(produced) == 0 {
+		return ro
+	}
+	return returnObject{Value: append(produced, ro)}
+}
+
 func (c *compiler) evalForExpression(node *ast.ForExpression) (interface{}, error) {
 	octx := c.ctx.(*Context)
 	defer func() {
@@ -981,6 +1001,9 @@ func (c *compiler) evalForExpression(node *ast.ForExpression) (interface{}, erro
 			if err != nil {
 				return nil, err
 			}
+			if ro, ok := res.(returnObject); ok && c.fnDepth > 0 {
+				return loopReturn(ret, ro), nil
+			}
 
 			breakLoop := false
 			switch val := res.(type) {
@@ -1008,6 +1031,9 @@ func (c *compiler) evalForExpression(node *ast.ForExpression) (interface{}, erro
 			res, err := c.evalBlockStatement(node.Block)
 			if err != nil {
 				return nil, err
+			}
+			if ro, ok := res.(returnObject); ok && c.fnDepth > 0 {
+				return loopReturn(ret, ro), nil
 			}
 
 			breakLoop := false
@@ -1041,6 +1067,9 @@ func (c *compiler) evalForExpression(node *ast.ForExpression) (interface{}, erro
 				res, err := c.evalBlockStatement(node.Block)
 				if err != nil {
 					return nil, err
+				}
+				if ro, ok := res.(returnObject); ok && c.fnDepth > 0 {
+					return loopReturn(ret, ro), nil
 				}
 
 				breakLoop := false
